@@ -15,6 +15,20 @@ the translator writes
   src_handlers     the round-1 table (function, adds a note, ends in a bare `raise`)
   src_wait_check / src_wait_check_old    run_evolve calls wait_check() after evolve()  (new / deprecated archipelago)
 
+Round 2c - the same tables for the same behaviour. What is read is normalised first, so that a behaviour-preserving
+rewrite of the anchored code gives the tables of the code it came from (details at "the package, resolved" below):
+calls to helpers of the same module / class / private helpers of the package and functions nested in the function are
+followed (a helper extracted from a handler, a helper that now contains the try statement or the call of the next
+function of the path, a helper holding evolve()/wait_check()); names bound exactly once (locally or at module level)
+and imported names stand for what they are bound to (aliases of add_note, of a context manager, of a tuple of exception
+classes, `import ... as`); a handler "re-raises" when EVERY path through it ends in `raise` / `raise <caught name>`
+(guard clauses, if/else, match, a helper that always raises its argument) and nothing leaves it early; try / with
+statements nested in a handler body or in a finally body are judged through that handler / finally block; a context
+manager defined in the package is read (generator-based: the constructs around its `yield`; class-based: what __exit__
+returns) instead of being looked up in a list; wait_check() must follow evolve() on every path (a conditional or
+skippable wait_check() is not accepted). Everything else still fails closed. Message texts, local names, annotations,
+comments, logging calls are never read.
+
 Properties/C09.v proves over these tables (vm_compute) that every path of every entry point exists, is
 connected, and has no construct that can drop an exception (`source_ok`), that the three note-adding
 handlers exist, catch every Exception and re-raise, and instantiates the generic propagation theorems with them.
